@@ -25,7 +25,14 @@ GXX_REAL_FLAGS = ["-std=c++17", "-O2", "-DNDEBUG", "-w"]          # the reposito
 CBMC_CHECKS = ["--unwinding-assertions", "--pointer-overflow-check", "--undefined-shift-check", "--signed-overflow-check", "--drop-unused-functions"]
 BACKENDS = {"minisat": [], "cadical": ["--sat-solver", "cadical"], "kissat": ["--external-sat-solver", "kissat"], "z3": ["--z3"], "cvc5": ["--cvc5"]}
 MEM_CAP_KB = 8 * 1024 * 1024
-NPROC = max(2, min(12, (os.cpu_count() or 4)))
+NPROC = max(2, min(int(os.environ.get("VERIF_JOBS", "6")), (os.cpu_count() or 4)))     # concurrent solver jobs
+
+
+def evidence_dir():
+    """evidence/ for /repo; evidence/alt-<hash>/ (git-ignored) when VERIF_REPO points at another tree (mutation testing)"""
+    d = os.path.join(VERIF, "evidence") if REPO == "/repo" else os.path.join(VERIF, "evidence", "alt-" + hashlib.sha1(REPO.encode()).hexdigest()[:8])
+    os.makedirs(os.path.join(d, "replay"), exist_ok=True)
+    return d
 
 
 def log(*a):
@@ -49,7 +56,7 @@ class Ctx:
         tag = "" if REPO == "/repo" else "-" + hashlib.sha1(REPO.encode()).hexdigest()[:8]
         self.dir = os.path.join(VERIF, ".build", "kernel", pid + tag)
         os.makedirs(self.dir, exist_ok=True)
-        os.makedirs(os.path.join(VERIF, "evidence", "replay"), exist_ok=True)
+        self.evd = evidence_dir()
         self.t0 = time.time()
         self.obligations = 0; self.discharged = 0; self.queries = 0; self.nontrivial = set()
         self.solver_time = 0.0
@@ -83,12 +90,12 @@ class Ctx:
             raise Infra("clang failed on %s:\n%s" % (wrapper, r.stderr[-3000:]))
         return self.p(out)
 
-    def translate(self, ll, out_c, entries=None, cuts=(), stubs=None):
+    def translate(self, ll, out_c, entries=None, cuts=(), stubs=None, externs=()):
         txt = open(self.p(ll)).read()
         if entries is None:
             entries = sorted(set(re.findall(r"^define [^@]*@(k_[A-Za-z0-9_]+)\(", txt, re.M)))
         try:
-            c, info, mod = ir2c.emit_c(txt, entries, cuts=cuts, stubs=stubs)
+            c, info, mod = ir2c.emit_c(txt, entries, cuts=cuts, stubs=stubs, externs=externs)
         except ir2c.Unsupported as e:
             raise Infra("ir2c: %s" % e)
         open(self.p(out_c), "w").write(c)
@@ -100,10 +107,10 @@ class Ctx:
         if r.returncode != 0:
             raise Infra("%s failed: %s\n%s" % (what, " ".join(cmd), r.stderr[-3000:]))
 
-    def build_native_pair(self, harness_c, gen_c, wrappers, tag, wrapper_defines=(), wrapper_extra=(), link=()):
+    def build_native_pair(self, harness_c, gen_c, wrappers, tag, wrapper_defines=(), wrapper_extra=(), link=(), harness_defines=()):
         """-> (binary running the harness on gcc(gen.c), binary running it on the g++ build of the REAL code)"""
         hobj = self.p(tag + "_h.o")
-        self.cc(["gcc", "-O1", "-DREPLAY", "-fno-strict-aliasing", "-I" + HK, "-I" + RT, "-c", os.path.join(HK, harness_c), "-o", hobj], "gcc harness")
+        self.cc(["gcc", "-O1", "-DREPLAY", "-fno-strict-aliasing", "-I" + HK, "-I" + RT] + ["-D" + d for d in harness_defines] + ["-c", os.path.join(HK, harness_c), "-o", hobj], "gcc harness")
         gen_bin, real_bin = self.p(tag + "_gen"), self.p(tag + "_real")
         self.cc(["gcc", "-O1", "-fno-strict-aliasing", "-fwrapv", "-I" + RT, hobj, self.p(gen_c), os.path.join(RT, "ir2c_rt.c"), "-lm", "-o", gen_bin], "gcc gen.c")
         objs = []
@@ -142,6 +149,7 @@ class Ctx:
         cmd += list(job.get("extra", ()))
         if witness: cmd += ["-DWITNESS", "--drop-unused-functions"]
         else: cmd += CBMC_CHECKS
+        if not witness and not trace and job.get("witness_inline", True): cmd += ["-DWITNESS_INLINE"]
         if trace: cmd += ["--trace", "--stop-on-fail"]
         cmd += BACKENDS[backend or job.get("backend", "minisat")]
         return cmd
@@ -187,6 +195,13 @@ class Ctx:
         for be in order:
             out, err, to, dt, rss = self._run(self.cbmc_cmd(job, backend=be), cap)
             st, fails, nprops = self.parse_cbmc(out, err, to)
+            wit_inline = None
+            if job.get("witness_inline", True) and st == "failed":
+                wit_inline = any("WITNESS" in f[1] for f in fails)
+                fails = [f for f in fails if "WITNESS" not in f[1]]
+                if not fails: st = "success" if wit_inline else "failed"
+            elif job.get("witness_inline", True) and st == "success":
+                wit_inline = False       # the witness assertion did not fail: the end of the harness is unreachable
             tried.append(dict(backend=be, status=st, time_s=round(dt, 2), rss_mb=rss // 1024))
             self.queries += 1; self.solver_time += dt
             if st in ("success", "failed"):
@@ -197,7 +212,7 @@ class Ctx:
             if any(t["status"] == "error" for t in tried): res["detail"] = (out[-600:] + err[-600:])
             return res
         if status == "failed":
-            unw = [f for f in fails if "unwind" in f[0] or "unwinding assertion" in f[1]]
+            unw = [f for f in fails if "unwind" in f[0] or "unwinding assertion" in f[1] or "ALLOC-BOUND" in f[1]]
             nobody = [f for f in fails if "no-body" in f[0]]
             if nobody:
                 res["status"] = "error"; res["why"] = "callee without body: %s" % nobody[:3]; return res
@@ -212,6 +227,11 @@ class Ctx:
             res["violated"] = m.group(1).strip() if m else str(fails[:3])
             return res
         res["status"] = "success"
+        if job.get("witness_inline", True):
+            res["witness"] = "reachable" if wit_inline else "NOT-REACHED"
+            if not wit_inline:
+                res["status"] = "error"; res["why"] = "witness assertion did not fail: harness is vacuous"
+            return res
         # witness twin (non-vacuity): the final assert(0) must be reachable
         outw, errw, tow, dtw, _r = self._run(self.cbmc_cmd(job, witness=True, backend=job.get("witness_backend", res["backend"])), cap)
         self.queries += 1; self.solver_time += dtw
@@ -266,7 +286,7 @@ class Ctx:
         for k in self.known:
             print("KNOWN-FINDING: property=%s %s" % (self.pid, k.get("known")))
         for n, v in enumerate(self.violations):
-            path = os.path.join(VERIF, "evidence", "replay", "%s-%d.json" % (self.pid, n))
+            path = os.path.join(self.evd, "replay", "%s-%d.json" % (self.pid, n))
             with open(path, "w") as f: json.dump(v, f, indent=1, default=str)
             print("VIOLATION property=%s replay=%s" % (self.pid, path))
             print("  obligation=%s" % v.get("obligation"))
@@ -292,10 +312,7 @@ class Ctx:
             ),
             assumptions=list(assumptions), wall_s=round(wall, 2), violations=len(self.violations),
         )
-        if REPO == "/repo":
-            with open(os.path.join(VERIF, "evidence", self.pid + ".json"), "w") as f: json.dump(ev, f, indent=1, default=str)
-        else:
-            with open(self.p("evidence.json"), "w") as f: json.dump(ev, f, indent=1, default=str)
+        with open(os.path.join(self.evd, self.pid + ".json"), "w") as f: json.dump(ev, f, indent=1, default=str)
         print("%s tier=%s: obligations=%d discharged=%d inconclusive=%d violations=%d known=%d errors=%d queries=%d wall=%.1fs solver=%.1fs maxrss=%dMB" % (
             self.pid, self.tier, self.obligations, self.discharged, len(self.inconclusive), len(self.violations), len(self.known), len(self.errors), self.queries, wall, self.solver_time, self.max_rss_kb // 1024))
         for e in self.errors[:10]: print("ERROR:", e)
